@@ -24,6 +24,9 @@ const STRANGER: usize = 6;
 pub struct TCfg {
     pub with_minter: bool,
     pub start_seq: u32,
+    /// the constructor's designated minter is the owner itself
+    #[serde(default)]
+    pub minter_is_owner: bool,
 }
 
 #[derive(Serialize, Deserialize, Clone, Debug, PartialEq, Eq, Hash)]
@@ -524,7 +527,7 @@ impl World for WorldT {
         let f_abort = p.faults && rng.chance(1, 2);
         let f_dup = p.faults && rng.chance(3, 4);
         let f_clock = rng.chance(4, 5);
-        let cfg = TCfg { with_minter: rng.chance(2, 3), start_seq: *rng.pick(&[0u32, 1, 100, 100_000]) };
+        let cfg = TCfg { with_minter: rng.chance(2, 3), start_seq: *rng.pick(&[0u32, 1, 100, 100_000]), minter_is_owner: rng.chance(1, 6) };
         // mint_from mint transfer approve transfer_from burn burn_from add rm owner advance resubmit
         let w: [u32; 12] = match p.focus {
             "C06" => [6, 10, 3, 3, 2, 1, 1, 16, 14, 22, 3, if f_dup { 8 } else { 0 }],
@@ -615,7 +618,8 @@ impl World for WorldT {
         let mut sim = Sim::new(1_700_000_000, cfg.start_seq);
         let env = sim.env.clone();
         let p: Vec<Address> = (0..NP).map(|_| Address::generate(&env)).collect();
-        let minter: Option<Address> = if cfg.with_minter { Some(p[1].clone()) } else { None };
+        let minter_idx = if cfg.minter_is_owner { 0 } else { 1 };
+        let minter: Option<Address> = if cfg.with_minter { Some(p[minter_idx].clone()) } else { None };
         let token = env.register(
             InterchainToken,
             (
@@ -629,7 +633,7 @@ impl World for WorldT {
         let mut m = TModel { owner: 0, ..Default::default() };
         m.minters.insert(0);
         if cfg.with_minter {
-            m.minters.insert(1);
+            m.minters.insert(minter_idx);
         }
         let mut ex = TExec { sim, token, p, m, history: vec![] };
         ex.invariants(ctx);
